@@ -293,6 +293,21 @@ class Classifier:
             for (rop, x, y) in rels:
                 if rop == "Lt" and x == idx and y == ops[0]:
                     auto = ("guarded", "index < len of the same slice dominates")
+            if auto is None:
+                # index < len(A) dominates and len(A) == len(B) was established by a comparison (cmp(..) is Equal / ==)
+                def _nl(x_):
+                    return re.sub(r"<impl str>::as_bytes\(([^()]*)\)", r"\1", x_)
+                eqs = set()
+                for a_ in atoms:
+                    m_ = re.match(r"^.*cmp\((.*)\) is Equal$", a_) or re.match(r"^\(Eq\((.*)\)\)$", a_)
+                    if m_:
+                        parts_ = _split_top(m_.group(1))
+                        if len(parts_) == 2:
+                            eqs.add((_nl(parts_[0]), _nl(parts_[1])))
+                            eqs.add((_nl(parts_[1]), _nl(parts_[0])))
+                for (rop, x, y) in rels:
+                    if rop == "Lt" and x == idx and (_nl(y), _nl(ops[0])) in eqs:
+                        auto = ("guarded", "index < len of a slice whose length was compared equal to this one")
         elif kind == "Unwrap":
             callee = s.get("callee", "")
             a = ops[0] if ops else ""
